@@ -521,6 +521,22 @@ TARGETS = [
                   self_fields={"file_size": "file_size", "check_info_pos": "check_info_pos"},
                   paths={"Self::BLOCK_SIZE": "headerBlock"},
                   exprs={"BlockCheck::Crc32.size()": "(blockCheckSize 1)"}, methods={"into_u64": "{recv}"})),
+    # ---- reader: ManifestPack::new (the loop over the pack infos)
+    dict(name="manifestPackNew", group="Open", file="src/reader/manifest_pack.rs", fn="new", after=r"impl ManifestPack",
+         cfg=dict(params=[("packHeader", "Outcome PackHeader"), ("manifestHeader", "Outcome ManifestHeader"), ("offsets", "PackHeader → ManifestHeader → List Nat"),
+                          ("infoAt", "Nat → Outcome PackInfo"), ("valueStoreAt", "(Nat × Nat) → Outcome V")],
+                  ret="(PackHeader × ManifestHeader × PackInfo × List PackInfo × Option V × Nat)", outcome=True, stateful=False, implicit="{V : Type}",
+                  try_exprs={"reader.parse_block_at(Offset::zero())": "packHeader",
+                             "reader.parse_block_at(Offset::from(PackHeader::BLOCK_SIZE))": "manifestHeader"},
+                  try_methods={("reader", "parse_block_at"): "infoAt {0}", ("reader", "parse_data_block"): "valueStoreAt {0}"},
+                  exprs={"PackOffsetsIter::new(pack_header.check_info_pos, header.pack_count)": "(offsets pack_header header)"},
+                  paths={"PackKind::Manifest": "PackKind.manifest"}, patterns={"PackKind::Directory": "PackKind.directory"},
+                  methods={".magic": "({recv}).kind", ".pack_kind": "({recv}).kind", ".pack_id": "({recv}).packId", ".value_store_posinfo": "({recv}).valueStore",
+                           "into_u16": "{recv}", "into_usize": "{recv}", "is_zero": "decide ({recv} = (0, 0))", ".pack_count": "({recv}).packCount"},
+                  funcs={"Vec::with_capacity": "[]", "OnceLock::new": "()"}, unwrap_options=True,
+                  struct_as={"Self": ["pack_header", "header", "directory_pack_info", "pack_infos", "value_store", "max_id"]},
+                  for_lists={"pack_offsets": ("pack_offsets", "Nat")},
+                  loop_vars=[("directory_pack_info", "Option PackInfo"), ("pack_infos", "List PackInfo"), ("max_id", "Nat")])),
 ]
 
 
@@ -719,7 +735,7 @@ def apply_enums(t):
     return "\n".join(decls)
 
 
-GROUP_IMPORTS = {"Open": ["JubakoModel.Model.Container"], "Parse": ["JubakoModel.Model.DirLayout", "JubakoModel.Generated.FuncsBytes"], "Entry": ["JubakoModel.Generated.FuncsBytes", "JubakoModel.Generated.FuncsDir"], "Stats": ["JubakoModel.Generated.FuncsBytes", "JubakoModel.Generated.FuncsDir"], "Lookup": ["JubakoModel.Model.Bytes"], "Fs": ["JubakoModel.Model.BasicCreatorFs"], "Sync": ["JubakoModel.Model.SyncVec"], "Pipe": ["JubakoModel.Model.Pipeline"], "Proto": ["JubakoModel.Model.FileCursor"], "Search": ["JubakoModel.Generated.FuncsBytes"], "Content": ["JubakoModel.Generated.FuncsBytes"], "Dir": ["JubakoModel.Generated.FuncsBytes", "JubakoModel.Model.Bytes"]}
+GROUP_IMPORTS = {"Open": ["JubakoModel.Model.Container", "JubakoModel.Generated.FuncsParse"], "Parse": ["JubakoModel.Model.DirLayout", "JubakoModel.Generated.FuncsBytes"], "Entry": ["JubakoModel.Generated.FuncsBytes", "JubakoModel.Generated.FuncsDir"], "Stats": ["JubakoModel.Generated.FuncsBytes", "JubakoModel.Generated.FuncsDir"], "Lookup": ["JubakoModel.Model.Bytes"], "Fs": ["JubakoModel.Model.BasicCreatorFs"], "Sync": ["JubakoModel.Model.SyncVec"], "Pipe": ["JubakoModel.Model.Pipeline"], "Proto": ["JubakoModel.Model.FileCursor"], "Search": ["JubakoModel.Generated.FuncsBytes"], "Content": ["JubakoModel.Generated.FuncsBytes"], "Dir": ["JubakoModel.Generated.FuncsBytes", "JubakoModel.Model.Bytes"]}
 GROUP_PREAMBLE = {"Parse": """/- semantics of the effects of the parsing code (trusted, DESIGN.md §12.7): `unwrap()` of an `Err` / `None` is a
    panic; `read_isized(n)` reads `n` bytes little-endian and sign-extends (`LE::read_int`) -/
 def unwrapped {α : Type} : Outcome α → Outcome α
